@@ -212,6 +212,14 @@ def fold(e, env=None):
             except re.error as ex:
                 raise NotConst("bad regex: %s" % ex)
             return m is not None
+        if ftxt == "isinstance" and len(e.args) == 2 and not e.keywords:
+            val = fold(e.args[0], env)
+            tnames = [ast.unparse(t_) for t_ in (e.args[1].elts if isinstance(e.args[1], ast.Tuple) else [e.args[1]])]
+            table = {"str": str, "int": int, "float": float, "bool": bool, "list": list, "tuple": tuple, "dict": dict, "bytes": bytes,
+                     "basestring": (str, bytes)}
+            if all(t_ in table for t_ in tnames):
+                return isinstance(val, tuple(x for t_ in tnames for x in (table[t_] if isinstance(table[t_], tuple) else (table[t_],))))
+            raise NotConst("isinstance against %s" % tnames)
         if ftxt in ("any", "all") and len(e.args) == 1 and not e.keywords:
             seq = fold(e.args[0], env)
             return any(seq) if ftxt == "any" else all(seq)
